@@ -113,6 +113,24 @@ theorem same_as_fresh_run (prog : List Stmt) (s : Store) (hsafe : safe [] (prog.
 directory is read or appended to before this same run has written/truncated it -/
 theorem generation_no_read_before_write : safe [] ESR.Gen.Effects.generation = true := by decide +kernel
 
+/-- Each fitting stage reads, besides files it has itself (over)written, only its declared inputs: the library files
+and the outputs of the previous stage.  With `history_independent` (started with `fresh :=` those inputs): given the same
+inputs a stage leaves the same bytes whatever else earlier runs left in the output and temporary directories. -/
+theorem fit_stage_reads_only_inputs :
+    safe ["all_equations_#.txt", "unique_equations_#.txt"] ESR.Gen.Effects.fitStage = true := by decide +kernel
+
+theorem fisher_stage_reads_only_inputs :
+    safe ["all_equations_#.txt", "unique_equations_#.txt", "negloglike_comp#.dat"] ESR.Gen.Effects.fisherStage = true := by
+  decide +kernel
+
+theorem match_stage_reads_only_inputs :
+    safe ["all_equations_#.txt", "negloglike_comp#.dat", "inv_subs_#.txt", "matches_#.txt", "derivs_comp#.dat"]
+      ESR.Gen.Effects.matchStage = true := by decide +kernel
+
+theorem combine_stage_reads_only_inputs :
+    safe ["unique_equations_#.txt", "all_equations_#.txt", "codelen_matches_comp#.dat", "#.txt"]
+      ESR.Gen.Effects.combineStage = true := by decide +kernel
+
 /-- the shuffles are seeded inside the stage, right before they are drawn -/
 theorem shuffles_seeded : ESR.Gen.Effects.unseededShuffles = [] := by decide +kernel
 
